@@ -6,7 +6,7 @@ rows = []
 for f in sorted(glob.glob(os.path.join(base, "seeded", "*", "meta.json"))):
     m = json.load(open(f))
     needs = " ".join(m.get("needs_to_manifest", "").split())[:230]
-    det = ", ".join(m.get("detected_by") or []) or ("not reported - assessed as not observable (see text)" if m.get("assessment") else "NOT DETECTED")
+    det = ", ".join(m.get("detected_by") or []) or ("not reported - see the assessment in the text" if m.get("assessment") else "NOT DETECTED")
     first = ""
     for p, v in (m.get("first_violation_lines") or {}).items():
         if v and p in (m.get("detected_by") or []):
